@@ -270,3 +270,27 @@ impl Subscriber for StrictHost {
     }
 
 }
+
+
+/// Stands in for "no subscriber installed yet": answers like `NoSubscriber` (never interested,
+/// nothing enabled, placeholder ids) but numbers the metadata objects it is asked to register, so
+/// that the harness's metadata indices stay in the arena's allocation order.
+pub struct NoHostYet;
+
+impl tracing_core::Subscriber for NoHostYet {
+    fn register_callsite(&self, metadata: &'static Metadata<'static>) -> Interest {
+        let _ = meta_index(metadata);
+        Interest::never()
+    }
+    fn enabled(&self, _metadata: &Metadata<'_>) -> bool {
+        false
+    }
+    fn new_span(&self, _span: &tracing_core::span::Attributes<'_>) -> tracing_core::span::Id {
+        tracing_core::span::Id::from_u64(0xDEAD)
+    }
+    fn record(&self, _span: &tracing_core::span::Id, _values: &tracing_core::span::Record<'_>) {}
+    fn record_follows_from(&self, _span: &tracing_core::span::Id, _follows: &tracing_core::span::Id) {}
+    fn event(&self, _event: &tracing_core::Event<'_>) {}
+    fn enter(&self, _span: &tracing_core::span::Id) {}
+    fn exit(&self, _span: &tracing_core::span::Id) {}
+}
